@@ -2409,22 +2409,24 @@ impl Compiler {
         ctx: CompileNodeContext,
     ) -> Result<CompileNodeOutput> {
         let result = self.assign_result_register(ctx)?;
+        let stack_count = self.stack_count();
 
-        let value_result = self.compile_node(value, ctx.with_any_register())?;
-        let value_register = value_result.unwrap(self)?;
+        // The operation is performed even when its result is unused,
+        // it could throw an error or call an overridden operator.
+        let result_register = result.register.map_or_else(|| self.push_register(), Ok)?;
 
-        if let Some(result_register) = result.register {
-            let op_code = match op {
-                AstUnaryOp::Negate => Op::Negate,
-                AstUnaryOp::Not => Op::Not,
-            };
+        let value_register = self
+            .compile_node(value, ctx.with_any_register())?
+            .unwrap(self)?;
 
-            self.push_op(op_code, &[result_register, value_register]);
-        }
+        let op_code = match op {
+            AstUnaryOp::Negate => Op::Negate,
+            AstUnaryOp::Not => Op::Not,
+        };
 
-        if value_result.is_temporary {
-            self.pop_register()?;
-        }
+        self.push_op(op_code, &[result_register, value_register]);
+
+        self.truncate_register_stack(stack_count)?;
 
         Ok(result)
     }
@@ -2477,25 +2479,22 @@ impl Compiler {
         };
 
         let result = self.assign_result_register(ctx)?;
+        let stack_count = self.stack_count();
 
-        if let Some(result_register) = result.register {
-            let lhs = self.compile_node(lhs, ctx.with_any_register())?;
-            let lhs_register = lhs.unwrap(self)?;
-            let rhs = self.compile_node(rhs, ctx.with_any_register())?;
-            let rhs_register = rhs.unwrap(self)?;
+        // The operation is performed even when its result is unused,
+        // it could throw an error or call an overridden operator.
+        let result_register = result.register.map_or_else(|| self.push_register(), Ok)?;
 
-            self.push_op(op, &[result_register, lhs_register, rhs_register]);
+        let lhs_register = self
+            .compile_node(lhs, ctx.with_any_register())?
+            .unwrap(self)?;
+        let rhs_register = self
+            .compile_node(rhs, ctx.with_any_register())?
+            .unwrap(self)?;
 
-            if lhs.is_temporary {
-                self.pop_register()?;
-            }
-            if rhs.is_temporary {
-                self.pop_register()?;
-            }
-        } else {
-            self.compile_node(lhs, ctx.compile_for_side_effects())?;
-            self.compile_node(rhs, ctx.compile_for_side_effects())?;
-        };
+        self.push_op(op, &[result_register, lhs_register, rhs_register]);
+
+        self.truncate_register_stack(stack_count)?;
 
         Ok(result)
     }
@@ -2654,11 +2653,10 @@ impl Compiler {
             .compile_node(rhs, ctx.with_any_register())?
             .unwrap(self)?;
 
-        // We only need to perform the final comparison if there's a result register
-        if let Some(result_register) = result.register {
-            let op = get_comparision_op(ast_op).map_err(|e| self.make_error(e))?;
-            self.push_op(op, &[result_register, lhs_register, rhs_register]);
-        }
+        // The final comparison is performed even when its result is unused,
+        // it could throw an error or call an overridden operator.
+        let op = get_comparision_op(ast_op).map_err(|e| self.make_error(e))?;
+        self.push_op(op, &[comparison_register, lhs_register, rhs_register]);
 
         for jump_offset in jump_offsets.iter() {
             self.update_offset_placeholder(*jump_offset)?;
